@@ -47,6 +47,22 @@ func (c *FnCtx) frameEnv(p *Path, fr *frame, at *ssa.BasicBlock) map[string]Val 
 					env[ph.Comment] = v
 				}
 			}
+			if ph.Comment == "rangeindex" {
+				// "ranged": the slice a range loop iterates over (it has no source name when it is a call result)
+				for _, ref := range *ph.Referrers() {
+					bo, ok := ref.(*ssa.BinOp)
+					if !ok {
+						continue
+					}
+					for _, r2 := range *bo.Referrers() {
+						if ia, ok := r2.(*ssa.IndexAddr); ok {
+							if v, ok := fr.regs[ia.X]; ok {
+								env["ranged"] = v
+							}
+						}
+					}
+				}
+			}
 		}
 	}
 	return env
@@ -114,7 +130,10 @@ func (c *FnCtx) atLoopHead(p *Path, b *ssa.BasicBlock, li *loopInfoT) bool {
 			break
 		}
 		v := c.symbolic(p, ph.Comment+"_"+ph.Name(), ph.Type())
-		// keep static provenance that cannot change across iterations
+		if ph.Comment == "rangeindex" {
+			// the index of a range loop starts at -1 and only ever grows by one (shape of the SSA lowering)
+			p.assume("(>= " + v.T + " (- 1))")
+		}
 		fr.regs[ph] = v
 	}
 	entryHeap := p.heap.clone()
